@@ -438,7 +438,9 @@ def expected_field_components(f):
         out.append(("S", debug_text(f)))
         if conv is None and f.spec is None:
             conv = "r"
-    out.append(("F", f.expr.hy, conv, expected_components(f.spec or [])))
+    # (FComponent joins the adjacent strings of its format spec - the literal before a nested debug field and that field's verbatim
+    # text - just as FString joins its own: the model is then equal to the one read back from its printed form, C25)
+    out.append(("F", f.expr.hy, conv, expected_components(f.spec or [], join=True)))
     return out
 
 
